@@ -9,6 +9,7 @@ import (
 	"github.com/cedar-policy/cedar-go/verif/c01"
 	"github.com/cedar-policy/cedar-go/verif/c02"
 	"github.com/cedar-policy/cedar-go/verif/c03"
+	"github.com/cedar-policy/cedar-go/verif/c04"
 	"github.com/cedar-policy/cedar-go/verif/c20"
 	"github.com/cedar-policy/cedar-go/verif/core"
 )
@@ -17,6 +18,7 @@ var registry = map[string]func() *core.Check{
 	"C01": c01.Check,
 	"C02": c02.Check,
 	"C03": c03.Check,
+	"C04": c04.Check,
 	"C20": c20.Check,
 }
 
